@@ -41,7 +41,7 @@ STUB = ['uuid and identity-hash streams']
 ASSUMPTIONS = ['column names are ones every format accepts (the statement says so)', 'sampling, not proof']
 PROBES = ['csv', 'fits_table', 'votable', 'hdf5', 'gridded_fits', 'subset_export', 'empty_subset', 'full_subset', 'overwrite_existing',
           'fault_efbig', 'fault_missing_dir', 'fault_read_missing', 'fault_read_empty', 'fault_read_truncated', 'export_raised_loudly',
-          'reexport_after_update', 'byref_restart', 'chained_export', 'all_nan_column']
+          'reexport_after_update', 'byref_restart', 'chained_export', 'all_nan_column', 'byref_with_coordinates_set_later']
 
 FORMATS = ['csv', 'fits_table', 'votable', 'hdf5', 'gridded_fits']
 EXT = {'csv': 'csv', 'fits_table': 'fits', 'votable': 'vot', 'hdf5': 'hdf5', 'gridded_fits': 'fits'}
@@ -79,7 +79,7 @@ def generate(rng, cfg, guards):
         elif k == 'export_loaded':
             ops.append([k, rng.randrange(8), rng.pick(formats)])
         else:
-            ops.append([k, rng.randrange(8), rng.chance(0.5)])
+            ops.append([k, rng.randrange(8), rng.chance(0.5), rng.pick([0, 0, 1, 2])])
     return {'knobs': {'guards': list(guards), 'prop': PROP}, 'ops': ops}
 
 
@@ -437,7 +437,8 @@ def byref(w, res, op, exports, tmp):
     """Load an exported file into a fresh session, save it by reference, drop everything, restore, compare values."""
     from glue.core.application_base import Application
     from glue.core.data_collection import DataCollection
-    _, eh, absolute = op
+    _, eh, absolute = op[:3]
+    calib = op[3] if len(op) > 3 else 0
     if not exports:
         return
     e = exports[eh % len(exports)]
@@ -445,6 +446,12 @@ def byref(w, res, op, exports, tmp):
         loaded = as_list(load_for(e['fmt'], e['path']))
     except Exception:
         return
+    if calib:
+        # the user attaches coordinates to what was read from the file (the file itself has none to offer)
+        for d in loaded:
+            if d.coords is None:
+                d.coords = W.make_coords(calib, d.ndim)
+                res.probe('byref_with_coordinates_set_later')
     app = Application(DataCollection(loaded))
     path = os.path.join(tmp, 'byref.glu')
     try:
